@@ -210,38 +210,47 @@ func runC16(r *Run) {
 			ret, ok := in.(*ssa.Return)
 			return ok && !constIsNil(asConst(retOperand(ret, 0)))
 		}
-		gates := map[string][]edge{}
-		for _, br := range branchesIn(f) {
-			// key != token.Key
-			if br.Info.Other != nil && (br.Info.Op == token.NEQ || br.Info.Op == token.EQL) {
-				a, b := br.Info.Root, br.Info.Other
-				isKeyParam := func(v ssa.Value) bool { p, ok := v.(*ssa.Parameter); return ok && p.Name() == "key" }
-				isTokKey := func(v ssa.Value) bool { fv := fieldOfValue(stripValue(v)); return fv != nil && fv.Name() == "Key" }
-				if (isKeyParam(a) && isTokKey(b)) || (isKeyParam(b) && isTokKey(a)) {
-					rel := br.Info.Op == token.EQL
-					gates["key-equal"] = append(gates["key-equal"], edge{br.If.Block(), br.slotWhenRel(rel)})
+		// the three gates as gate items: a branch edge, or the value a boolean helper hands back (`tokenUsable` answering
+		// compareTokens(…) in its last arm)
+		isKeyParam := func(v ssa.Value) bool {
+			p, ok := stripValue(v).(*ssa.Parameter)
+			return ok && p.Name() == "key" || valueIsParamNamed(v, "key")
+		}
+		isTokKey := func(v ssa.Value) bool { fv := fieldOfValue(stripValue(v)); return fv != nil && fv.Name() == "Key" }
+		holds := map[string]func(ci condInfo) (bool, bool){
+			"key-equal": func(ci condInfo) (bool, bool) {
+				if ci.Other == nil || (ci.Op != token.NEQ && ci.Op != token.EQL) {
+					return false, false
 				}
-			}
-			if c, _ := producerCall(br.Info.Root); c != nil {
-				switch {
-				case strings.HasSuffix(calleeName(&c.Call), "csrf.compareTokens"):
-					if s, ok := br.truthSlot(true); ok {
-						gates["raw-equal"] = append(gates["raw-equal"], edge{br.If.Block(), s})
-					}
-				case calleeName(&c.Call) == "(time.Time).Before":
-					if s, ok := br.truthSlot(false); ok {
-						gates["not-expired"] = append(gates["not-expired"], edge{br.If.Block(), s})
-					}
+				if (isKeyParam(ci.Root) && isTokKey(ci.Other)) || (isKeyParam(ci.Other) && isTokKey(ci.Root)) {
+					return ci.Op == token.EQL, true
 				}
-			}
+				return false, false
+			},
+			"raw-equal": func(ci condInfo) (bool, bool) {
+				if ci.Op != token.ILLEGAL {
+					return false, false
+				}
+				if c, _ := producerCall(ci.Root); c != nil && strings.HasSuffix(calleeName(&c.Call), "csrf.compareTokens") {
+					return true, true
+				}
+				return false, false
+			},
+			"not-expired": func(ci condInfo) (bool, bool) {
+				if ci.Op != token.ILLEGAL {
+					return false, false
+				}
+				if c, _ := producerCall(ci.Root); c != nil && calleeName(&c.Call) == "(time.Time).Before" {
+					return false, true
+				}
+				return false, false
+			},
 		}
 		for _, gname := range []string{"key-equal", "raw-equal", "not-expired"} {
-			cut := map[edge]bool{}
-			for _, e := range gates[gname] {
-				cut[e] = true
-			}
+			items := gateItemsIn(f, holds[gname])
+			cut := cutsFor(f, items)
 			_, hit := reach(entryOf(f), retRaw, cut, nil)
-			r.check(len(cut) > 0 && hit == nil, "sessionManager.getRaw:"+gname, r.fpos(f), "a token is confirmed only past the `"+gname+"` edge",
+			r.check(len(items) > 0 && hit == nil, "sessionManager.getRaw:"+gname, r.fpos(f), "a token is confirmed only past the `"+gname+"` edge",
 				"with the session backend a token can be confirmed without the `"+gname+"` condition holding: a forged, replayed or foreign token passes while the session holds any live token")
 		}
 		sm := r.Fn(csrfPkg, "(*storageManager).getRaw")
@@ -563,7 +572,31 @@ func runC16(r *Run) {
 				n++
 				isSave := func(in ssa.Instruction) bool {
 					ci, ok := in.(ssa.CallInstruction)
-					return ok && strings.HasSuffix(calleeName(ci.Common()), "session.Session).Save") && stripValue(ci.Common().Args[0]) == stripValue(recv)
+					if !ok {
+						return false
+					}
+					if strings.HasSuffix(calleeName(ci.Common()), "session.Session).Save") && stripValue(ci.Common().Args[0]) == stripValue(recv) {
+						return true
+					}
+					// a helper of the package that is handed the session and saves it on every path
+					g := ci.Common().StaticCallee()
+					if g == nil || g.Pkg != f.Pkg || len(g.Blocks) == 0 {
+						return false
+					}
+					for i, a := range ci.Common().Args {
+						if stripValue(a) != stripValue(recv) || i >= len(g.Params) {
+							continue
+						}
+						p := g.Params[i]
+						_, miss := reach(entryOf(g), isReturn, nil, func(gi ssa.Instruction) bool {
+							gc, ok := gi.(ssa.CallInstruction)
+							return ok && strings.HasSuffix(calleeName(gc.Common()), "session.Session).Save") && stripValue(gc.Common().Args[0]) == ssa.Value(p)
+						})
+						if miss == nil {
+							return true
+						}
+					}
+					return false
 				}
 				_, hit := reach(pointAfter(c.Instr), isReturn, nil, isSave)
 				r.check(hit == nil, fmt.Sprintf("%s:%s-then-Save", short(f.String()), short(c.Name)), r.pos(c.Instr), "every path from the change to return saves that session",
